@@ -119,7 +119,7 @@ namespace mc
                     int wst = 0;
                     if (cpid > 0)
                         waitpid(cpid, &wst, 0);
-                    raw += "\x01END " + std::to_string(wst) + "\n";
+                    raw += std::string("\x01") + "END " + std::to_string(wst) + "\n";
                     std::size_t off = 0;
                     while (off < raw.size())
                     {
@@ -173,6 +173,10 @@ namespace mc
             }
             if (pre)
                 ++st.with_preemption;
+            // a child that died (signal) could not report its choice points: the schedule is
+            // the prefix it was given, continued with default choices
+            if (choices.size() < f.prefix.size())
+                choices = f.prefix;
             {
                 std::uint64_t h = 1469598103934665603ull;
                 for (auto& c : r.cps)
@@ -198,7 +202,7 @@ namespace mc
                     }
                 }
             }
-            if (r.verdict == "DIVERGE" || r.verdict == "EMPTY" || r.verdict == "SIGNAL")
+            if (r.verdict == "DIVERGE" || r.verdict == "EMPTY")
             {
                 // not a property verdict: the harness itself misbehaved
                 st.complete = false;
@@ -289,10 +293,11 @@ namespace mc
                     continue;
                 }
                 rn.buf.append(buf, static_cast<std::size_t>(n));
-                auto pos = rn.buf.find("\x01END ");
+                const std::string marker = std::string("\x01") + "END ";
+                auto pos = rn.buf.find(marker);
                 if (pos != std::string::npos && rn.buf.find('\n', pos) != std::string::npos)
                 {
-                    int wst = std::atoi(rn.buf.c_str() + pos + 5);
+                    int wst = std::atoi(rn.buf.c_str() + pos + marker.size());
                     rn.buf.resize(pos);
                     rn.busy = false;
                     handle(rn, wst);
